@@ -204,7 +204,7 @@ def struct_type(draw, o, defs, names, depth, kind="struct", name=None, top=False
             fields.append({"name": field_name(draw, used, o["hazard"]), "t": S("void"), "bits": None})
             continue
         # anonymous inline member
-        if o["anon"] and o["nested"] and depth > 0 and roll == o.get("bits_weight", 3) + 1:
+        if o["anon"] and o["nested"] and depth > 0 and o.get("bits_weight", 3) + 1 <= roll <= o.get("bits_weight", 3) + o.get("anon_weight", 1):
             sub = opts(**{**o, "anon": False, "hazard": False})
             akind = draw(st.sampled_from(["struct", "union"] if o["unions"] else ["struct"]))
             if akind == "union":
@@ -228,7 +228,9 @@ def struct_type(draw, o, defs, names, depth, kind="struct", name=None, top=False
         if o["arrays"] and roll >= athr and base["k"] != "p" or (o["arrays"] and base["k"] == "p" and roll >= 17):
             forms = ["fixed", "fixed", "fixed"]
             base_dyn = Sem(defs, {"endian": "<"}).size(base) is None
-            if o["expr"] and int_fields and not is_dyn_union_ctx:
+            if o["expr"] and int_fields and not is_dyn_union_ctx and Sem(defs, {"endian": "<"}).size(base) != 0:
+                # zero-size elements under a data-dependent count never reach end of input: a raw count of 2^60 would
+                # allocate without bound in any parser (not a subject of the listed properties)
                 forms += ["expr", "expr"]
             scalar_like = base["k"] in ("s", "e") and not (base["k"] == "s" and base["n"] in FLOATS + ["void"])
             if o["null"] and not is_dyn_union_ctx and scalar_like:
